@@ -446,7 +446,7 @@ Section Wrapper.
           -- exists e, []. split; [reflexivity|]. apply (Hh e eq_refl Eo). now apply dget_none_keys.
   Qed.
 
-  (* every allocation happens in a call whose pre-state has capacity, and uses the library's next id *)
+  (* every allocation happens in a call whose pre-state has capacity, and uses the next id of the library *)
   Lemma alloc_needs_capacity f s e s' o :
     cl_event f s (IHttp e) = Ok (s', o) -> qinv s -> apre s (IHttp e) ->
     dget (hev_sid e) (our s) = None -> dmem (hev_sid e) (our s') = true ->
@@ -551,7 +551,7 @@ Section Wrapper.
     forall c j, dget c (our s) = Some j <-> dget j (their s) = Some c.
   Proof. intros Hr Hw. destruct (reach_inv _ _ Hr) as (_ & _ & Hb). exact (b_bij _ (Hb Hw)). Qed.
 
-  (* every server stream id handed out is below the library's next id: a later stream never reuses one *)
+  (* every server stream id handed out is below the next id of the library: a later stream never reuses one *)
   Theorem map_ids_fresh s h : reach s h -> wf_first [] h = true ->
     forall j c, dget j (their s) = Some c -> j < next_id (cc s).
   Proof. intros Hr Hw j c Hj. destruct (reach_inv _ _ Hr) as (_ & _ & Hb).
@@ -567,7 +567,7 @@ Section Wrapper.
   Theorem map_dead_queue_empty s h : reach s h -> fq = true -> is_dead (cc s) = true -> queue s = [].
   Proof. induction 1 as [|s h i s' o Hr IH Hs]; [reflexivity|]. apply (cl_event_Dq _ _ _ _ _ Hs). exact IH. Qed.
 
-  (* a stream is opened by a step only if the wrapped connection reported capacity, and it gets the library's next id *)
+  (* a stream is opened by a step only if the wrapped connection reported capacity, and it gets the next id of the library *)
   Theorem map_open_needs_capacity s h e s' o : reach s h -> cl_step s (IHttp e) = Ok (s', o) ->
     dget (hev_sid e) (our s) = None -> dmem (hev_sid e) (our s') = true ->
     has_free (cc s) = true /\ dget (hev_sid e) (our s') = Some (next_id (cc s)).
